@@ -17,3 +17,5 @@ json.dump({'Replace':rep},open(B+'/overlay.json','w'),indent=1)
 PY
 cd $R
 go build -tags verif -overlay $B/overlay.json -o $B/verifh ./internal/verifh
+# the esbuild command itself, from the same tree (command-line sub-checks)
+go build -o $B/esbuild-real ./cmd/esbuild
